@@ -47,13 +47,22 @@ def session():
 	return _SESSION
 
 
+_PROC = None
+
+
 class IdentityRun:
 	def __init__(self, acc: Acc, case: dict, r: random.Random) -> None:
 		from rogw.tranp.semantics.procedure import Procedure
 		self.acc = acc
 		self.case = case
 		self.r = r
-		self.proc = Procedure()
+		# one long-lived Procedure per process, as the interactive mode and a command-line run over many modules have: every case
+		# re-submits '__main__' with another source, so roots of different trees are equal by module path and tree path
+		global _PROC
+		if _PROC is None:
+			_PROC = Procedure()
+		self.proc = _PROC
+		self.proc.clear_handler()
 		self.proc.on('on_fallback', self.handler)
 		self.depth = 0
 		self.bad = False
@@ -122,12 +131,49 @@ def identity_case(acc: Acc, case: dict) -> None:
 		if len(event) >= 2:
 			multi[0] = True
 		return orig_handler(node, **event)
+	handled: list[tuple] = []
+
+	def describe(n) -> tuple:
+		return (type(n).__name__, n.full_path, n.tokens[:24])
+
+	def recording(node, **event):
+		if run.depth == 0:
+			handled.append(describe(node))
+		return counting(node, **event)
 	run.proc.clear_handler()
-	run.proc.on('on_fallback', counting)
+	run.proc.on('on_fallback', recording)
+
+	def walk_law(label: str) -> None:
+		# every node of the tree that was handed in is handled exactly once, children before their parent, the root last
+		want = [describe(n) for n in ep.procedural()] + [describe(ep)]
+		acc.see('walk_compared', label)
+		if handled != want:
+			i = next((j for j, (a, b) in enumerate(zip(handled, want)) if a != b), min(len(handled), len(want)))
+			run.fail('walk-differs', f'{label}: {len(handled)} handler calls for a tree of {len(want)} nodes; first difference at #{i}: handled {handled[i] if i < len(handled) else None}, tree has {want[i] if i < len(want) else None}')
 	try:
 		result = run.proc.exec(ep)
 		if not pmon.same_node(result, ep):
 			run.fail('final-result', f'exec(entrypoint) returned {result!r}')
+		walk_law('first run')
+		if not run.bad and case.get('seed', 0) % 2 == 0:
+			# the same tree again: sub-tree runs from block-owning roots (twice each), then the whole module once more
+			import rogw.tranp.syntax.node.definition as defs
+			blocks = [n for n in ep.procedural() if isinstance(n, (defs.Function, defs.Class, defs.If, defs.For, defs.While, defs.Try))]
+			for sub in run.r.sample(blocks, min(2, len(blocks))):
+				for _ in range(2):
+					run.depth += 1
+					try:
+						res = run.proc.exec(sub)
+					finally:
+						run.depth -= 1
+					acc.see('nested_exec', 'sub-root-repeat')
+					if not pmon.same_node(res, sub):
+						run.fail('sub-root-result', f'exec({sub!r}) returned {res!r}')
+			handled.clear()
+			result = run.proc.exec(ep)
+			if not pmon.same_node(result, ep):
+				run.fail('final-result', f'second exec(entrypoint) returned {result!r}')
+			walk_law('second run over the same tree')
 		acc.see('identity_run', 'completed')
 	except Errors.Error as e:
 		if type(e) is Errors.Logic:
